@@ -81,4 +81,8 @@ extern void mpt_linepart_linear(MPT_STRUCT(linepart) *part, const double *from, 
 	}
 	
 	if (!len) ++part->raw;
+	
+	/* always make progress: a hidden first point is consumed even when the value behind it
+	 * is neither hidden nor visible (NaN) */
+	if (!part->raw) part->raw = 1;
 }
